@@ -280,7 +280,7 @@ def build_cases(ctx, n):
             thr, top = 1 / ns[-1], 1 / ns[0]
             b = r.choice([thr, thr * (1 + EPS * 4), thr * (1 - EPS * 4), thr * (1 + logu(r, -8, -1)),
                           min(1.0, top), r.uniform(thr, min(1.0, max(top, thr))), r.uniform(0.05, 1.0), 1.0,
-                          1 / r.choice(ns)])
+                          1 / r.choice(ns), min(1.0, top * (1 + logu(r, -6, -1))), min(1.0, top * (1 + logu(r, -6, -1)))])
             cases.append({"k": k, "es": es, "ns": ns, "q": r.choice([-1.0, 1.0, 2.0]), "beta": min(b, 1.0)})
         elif k == "ckvgen":
             es, ns = gen_material(r)
@@ -644,6 +644,29 @@ def run(ctx):
                     oracle_fail(c, "dN/dx negative or not finite: %r" % impl["v"], None, {"impl": impl})
                 if not close(impl["v"], mv, rtol=1e-9, atol=1e-9 * scale):
                     disagree(c, impl, model, "dN/dx")
+                # integral oracle (theorems C20_dndx_zero_beyond_nmax, C20_dndx_full_range_is_trapezoid,
+                # C20_dndx_full_range_le_exact) on the implementation's value, computed independently here
+                es_, ns_ = c["es"], c["ns"]
+                ib = 1.0 / c["beta"]
+                kk = c["q"] ** 2 * consts[1] * consts[2]
+                if ib > ns_[-1]:
+                    ctx.count("dndx-integral-oracle:beyond-nmax")
+                    if impl["v"] != 0:
+                        oracle_fail(c, "dN/dx = %r is not 0 although 1/beta = %r exceeds the largest refractive index %r"
+                                    % (impl["v"], ib, ns_[-1]), None, {"impl": impl})
+                elif ib < ns_[0]:
+                    ctx.count("dndx-integral-oracle:full-range")
+                    seg = range(len(es_) - 1)
+                    trap = sum(0.5 * (es_[i + 1] - es_[i]) * ((1 - ib * ib / ns_[i] ** 2) + (1 - ib * ib / ns_[i + 1] ** 2)) for i in seg)
+                    exact = (es_[-1] - es_[0]) - ib * ib * sum((es_[i + 1] - es_[i]) / (ns_[i] * ns_[i + 1]) for i in seg)
+                    if not close(impl["v"], max(0.0, kk * trap), rtol=1e-9, atol=1e-9 * scale):
+                        oracle_fail(c, "dN/dx = %r is not the trapezoid-rule integral of 1 - 1/(n^2 beta^2) over the energy grid (%r)"
+                                    % (impl["v"], max(0.0, kk * trap)), None, {"impl": impl, "trapezoid_energy": trap})
+                    elif impl["v"] > max(0.0, kk * exact) * (1 + 1e-9) + 1e-9 * scale:
+                        oracle_fail(c, "dN/dx = %r exceeds the exact integral for piecewise-linear n(E) (%r)"
+                                    % (impl["v"], kk * exact), None, {"impl": impl, "exact_energy": exact})
+                else:
+                    ctx.count("dndx-integral-oracle:threshold-inside-grid(not covered by a closed-form theorem)")
         elif k in ("ckvgen", "scgen"):
             if impl.get("rejected"):
                 ctx.case(key, False)
